@@ -284,10 +284,18 @@ pub fn sweep_trees(c: &Ctx, den: u64, unprivileged: bool) {
             // bookkeeping left behind by the call only shows through later calls
             let mut seq = vec![call.clone()];
             if let [a, b] = call.paths()[..] {
-                for p in [b, a] {
+                // (a link target spelled relative to the link's directory is not a path to read back)
+                for p in [b, a].into_iter().filter(|p| p.starts_with('@')) {
                     seq.push(Op::ReadAll(p.to_string()));
                     seq.push(Op::ReadlinkAbs(p.to_string()));
                     seq.push(Op::Paths(p.to_string()));
+                }
+                // what kind a NEW link was recorded as shows to the kind queries only (after a move or copy the
+                // recorded kind of a link whose relative target now names something else may lag: C10 speaks of the
+                // kind "at creation for as long as the target is unchanged")
+                if matches!(call, Op::Symlink(..)) {
+                    seq.push(Op::IsSymlinkDir(a.to_string()));
+                    seq.push(Op::IsSymlinkFile(a.to_string()));
                 }
             }
             // a listing from the case root after every mutating call, refused ones included: what a call left in a
